@@ -251,7 +251,8 @@ def reflection(ctx, rng, idx):
     try:
         S1 = gen.integ(iname)(mesh, disc)
         e1 = S1.solve(f, cfl, stop={"maxit": nstep}, directives=dict(dirs))[-1]
-        e2 = gen.integ(iname)(mesh2, disc2).solve(f2, cfl, stop={"maxit": nstep}, directives=dict(dirs))[-1]
+        S2u = gen.integ(iname)(mesh2, disc2)
+        e2 = S2u.solve(f2, cfl, stop={"maxit": nstep}, directives=dict(dirs))[-1]
     except np.linalg.LinAlgError:
         raise core.Skip("singular")
     d2 = unmirror(e2.data, spec.mname)
@@ -347,7 +348,8 @@ def units(ctx, rng, idx):
     try:
         S1 = gen.integ(iname)(mesh, disc)
         e1 = S1.solve(f, cfl, stop={"maxit": nstep}, directives=dict(dirs))[-1]
-        e2 = gen.integ(iname)(mesh2, disc2).solve(f2, cfl, stop={"maxit": nstep}, directives=dict(dirs))[-1]
+        S2u = gen.integ(iname)(mesh2, disc2)
+        e2 = S2u.solve(f2, cfl, stop={"maxit": nstep}, directives=dict(dirs))[-1]
     except np.linalg.LinAlgError:
         raise core.Skip("singular")
     d2 = [x / sc for x, sc in zip(e2.data, qs)]
@@ -356,6 +358,10 @@ def units(ctx, rng, idx):
         raise core.Skip("nonfinite solve")
     if implicit:
         itol, cond = _implicit_tol(S1, disc, e1, cfl, iname, nstep)
+        # ... and of the TWIN's system: in other units the rows of the same matrix are 1 : 1e5 : 1e11 apart (velocity unit 2^20), and it is
+        # that matrix the rescaled run factorises (thorough-tier witness, seed 10)
+        itol2, cond2 = _implicit_tol(S2u, disc2, e2, cfl, iname, nstep)
+        itol = max(itol, itol2) if np.isfinite(itol2) else itol
         if not itol < 1e-3:
             ctx.skip("implicit:ill-conditioned-system")
             return
